@@ -117,6 +117,13 @@ class C12(Prop):
         out["raw_present"] = F in Xt.columns
         out["raw_unchanged"] = out["raw_present"] and bool(
             ((Xt[F] == X0[F]) | (Xt[F].isna() & X0[F].isna())).all())
+        # transforming an already transformed frame again must refresh the per-class copies
+        try:
+            Xt2 = mc.transform(Xt.copy())
+            out["retransform_same"] = all(
+                bool(((Xt2[c] == Xt[c]) | (Xt2[c].isna() & Xt[c].isna())).all()) for c in mc.features)
+        except Exception as e:  # noqa: BLE001
+            out["retransform_same"] = f"{type(e).__name__}: {e}"[:160]
         per = {}
         for name in out["fitted"]:
             cls = name[len(F) + 1:]
@@ -161,6 +168,9 @@ class C12(Prop):
                            f"(kept class columns: {out['columns']})")
         if not out["raw_unchanged"]:
             return False, "raw feature column modified by transform"
+        if out.get("retransform_same") is not True:
+            return False, ("transforming the transformed frame again does not reproduce the class columns "
+                           f"({out.get('retransform_same')})")
         for cls, po in out["per"].items():
             b, m = po["binary"], po["multi"]
             if b.get("fit") != "ok":
